@@ -83,7 +83,9 @@ fn main() {
     // only the calls made by the traced program itself (the children are traced too: a shell may signal itself)
     let me_pid = out.lines().find(|l| l.starts_with("SELF ")).map(|l| l[5..].trim().to_string()).unwrap_or_default();
     let lib_calls: Vec<&str> = tr.lines().filter(|l| l.split_whitespace().next() == Some(me_pid.as_str()) && l.contains("kill(") && !l.contains("resumed") && !l.contains("+++") && !l.contains("--- SIG")).collect();
-    let marks: Vec<usize> = lib_calls.iter().enumerate().filter(|(_, l)| l.contains(", 0)") || l.contains(", SIG_0)")).map(|(i, _)| i).collect();
+    // (a call that strace prints in two halves -- `kill(pid, 0 <unfinished ...>` -- is still the marker)
+    let is_mark = |l: &str| l.contains(", 0)") || l.contains(", SIG_0)") || l.contains(", 0 <unfinished") || l.contains(", SIG_0 <unfinished");
+    let marks: Vec<usize> = lib_calls.iter().enumerate().filter(|(_, l)| is_mark(l)).map(|(i, _)| i).collect();
     if marks.len() != 2 || children.len() != 5 { fail(format!("trace not understood: {} markers, {} children\n{}", marks.len(), children.len(), tr)); }
     else {
         let phase1: Vec<&&str> = lib_calls[..marks[0]].iter().filter(|l| !l.contains("sh") || true).collect();
